@@ -2,7 +2,7 @@
    segmentation and close timing. *)
 From Coq Require Import NArith List Bool Arith Lia.
 Import ListNotations.
-From LTV.C06 Require Import ParamsGen Model.
+From LTV.C06 Require Import ParamsProbe Model.
 
 
 Ltac consts := cbv [BUF PADMAX PADREAD KEYLEN NEGO HSIZE PART1 VCLEN PCBBUF
